@@ -296,12 +296,89 @@ def scenario(ctx, rng, tmpdir):
             viol('C12.remaster', 're-mastered hybrid differs at byte %d' % d)
     except Exception as e:  # noqa
         viol('C12.reopen/%s' % isoapi.exc_class(e), 'cannot reopen the hybrid image: %r' % e)
+    # second generation: the hybrid image is opened, grows by one file and is written again; the boot data must describe
+    # the new image (nothing of the old system area may survive)
+    try:
+        iso3 = pycdlib.PyCdlib()
+        iso3.open_fp(io.BytesIO(img))
+        grow = rng.choice([1, 3000, 70000, 700000])
+        kw3 = {'iso_path': '/GROWN.;1'}
+        if cfg.get('rr'):
+            kw3['rr_name'] = 'grown'
+        with isoapi.frozen_time():
+            iso3.add_fp(io.BytesIO(b'g' * grow), grow, **kw3)
+            out3 = io.BytesIO()
+            iso3.write_fp(out3)
+        iso3.close()
+        second_generation(ctx, out3.getvalue(), hy, s_geo, h_geo, variant, viol)
+    except Exception as e:  # noqa
+        viol('C12.gen2/%s' % isoapi.exc_class(e), 'open + add_fp + write of the hybrid image raised %r' % e)
     nontriv = variant != 'plain' or (s_geo, h_geo) != (32, 64) or hy['part_entry'] != 1 or hy['part_offset'] != 0
     ctx.count(key=seed, nontrivial=nontriv, kind='variant:' + variant, sample={'cfg': cfg, 'variant': variant, 'hybrid': hy, 'sizes': sizes, 'load': lsz, 'before_isohybrid': pre_step})
 
 
+def second_generation(ctx, img2, hy, s_geo, h_geo, variant, viol):
+    """MBR of an image that was opened, edited and written again: geometry fields for the NEW length, boot file address of
+    the NEW layout, still a whole number of cylinders"""
+    cyl = s_geo * h_geo * 512
+    if len(img2) % cyl != 0:
+        viol('C12.gen2/padding', 'second generation: length %d is not a whole number of %d-byte cylinders' % (len(img2), cyl))
+    if img2[510:512] != b'\x55\xaa':
+        viol('C12.gen2/signature', 'second generation: no 55AA at offset 510')
+        return
+    with tempfile.NamedTemporaryFile(prefix='verif-c12-gen2-', suffix='.iso') as tf:
+        tf.write(img2)
+        tf.flush()
+        rep = isoapi.read_image(ctx, tf.name)
+    bents = [e for e in rep.entries if e.startswith('B:')]
+    if bents:
+        rba0 = int([x for x in bents[0].split(':') if x.startswith('rba')][0][3:])
+        rba = struct.unpack_from('<L', img2, 432)[0]
+        if rba != 4 * rba0:
+            viol('C12.gen2/mbr-rba', 'second generation: MBR boot file address %d != 4 x sector %d' % (rba, rba0))
+    part = img2[446 + 16 * (hy['part_entry'] - 1): 462 + 16 * (hy['part_entry'] - 1)]
+    st, bh, bs, bc, pt, eh, es, ec, off, psize = struct.unpack('<BBBBBBBBLL', part)
+    cc = min(len(img2) // cyl, 1024)
+    m = [int(x) for x in ctx.driver.ask(['mbrchs %d %d %d %d' % (cc, h_geo, s_geo, hy['part_offset'])])[0].split()]
+    if (eh, es, ec, off, psize) != (m[3], m[4], m[5], hy['part_offset'], m[6]):
+        viol('C12.gen2/mbr-geometry', 'second generation: active partition end/offset/size %s, expected %s for the %d-byte image' % (
+            (eh, es, ec, off, psize), (m[3], m[4], m[5], hy['part_offset'], m[6]), len(img2)))
+    ctx.count(key=('gen2', len(img2), s_geo, h_geo, variant), nontrivial=True, kind='gen2:' + variant)
+
+
+def probe_relocated_second_generation(ctx):
+    """a Rock Ridge image with two relocated directories (their placeholders are records without data) and an isohybrid MBR
+    is opened, grows and is written again"""
+    import pycdlib
+    viol = lambda sig, msg: ctx.violation(sig, msg, {'kind': 'probe-relocated-gen2'})   # noqa
+    with isoapi.frozen_time():
+        iso = pycdlib.PyCdlib()
+        iso.new(interchange_level=3, rock_ridge='1.09')
+        p = ''
+        for i in range(7):
+            p += '/D%d' % i
+            iso.add_directory(p, rr_name='d%d' % i)
+        iso.add_directory(p + '/DEEPA', rr_name='deepa')
+        iso.add_directory(p + '/DEEPB', rr_name='deepb')
+        b = isoapi.isolinux_boot(2048)
+        iso.add_fp(io.BytesIO(b), len(b), '/ISOLINUX.;1', rr_name='isolinux')
+        iso.add_eltorito('/ISOLINUX.;1', boot_load_size=4)
+        iso.add_isohybrid()
+        out = io.BytesIO()
+        iso.write_fp(out)
+        iso.close()
+        g = pycdlib.PyCdlib()
+        g.open_fp(io.BytesIO(out.getvalue()))
+        g.add_fp(io.BytesIO(b'x' * 5000000), 5000000, '/BIG.;1', rr_name='big')
+        out2 = io.BytesIO()
+        g.write_fp(out2)
+        g.close()
+    second_generation(ctx, out2.getvalue(), {'part_entry': 1, 'part_offset': 0}, 32, 64, 'plain', viol)
+
+
 def run(ctx):
     run_fn(ctx)
+    probe_relocated_second_generation(ctx)
     tmpdir = tempfile.mkdtemp(prefix='verif-c12-')
     try:
         for _ in range(60 if ctx.quick else 1500):
@@ -314,6 +391,11 @@ def run(ctx):
 
 
 def replay(ctx, obj):
+    if obj.get('replay', obj).get('kind') == 'probe-relocated-gen2':
+        probe_relocated_second_generation(ctx)
+        for v in ctx.violations:
+            core.log('violation:', v['signature'], v['summary'])
+        return [v['signature'] for v in ctx.violations]
     r = obj.get('replay', obj)
     tmpdir = tempfile.mkdtemp(prefix='verif-c12-')
     try:
